@@ -37,6 +37,9 @@ FragEq(js, fr) ==
                                                      /\ js.cmds[i].recs = fr.cmds[i].recs)
 
 TIssue == IsEvent("issue") /\ Issue([i \in 1..Len(Ev.cmds) |-> [f |-> Ev.cmds[i].f, s |-> Ev.cmds[i].s, recs |-> Ev.cmds[i].recs]])
+TFlush == IsEvent("flush") /\ FlushBegin(Ev.n)
+TTrunc == IsEvent("waltrunc") /\ WalTruncate
+TStat  == IsEvent("rotstatus") /\ StatusWrite
 TWal   == IsEvent("wal") /\ FragEq(Ev.frag, NextFrag) /\ WalWrite
 TFsync == IsEvent("walfsync") /\ WalFsync
 TAck   == IsEvent("ack") /\ Ack
@@ -55,7 +58,7 @@ TPrim == /\ l <= Len(Trace) /\ Ev.e \in {"fix", "dat", "idx"} /\ l' = l + 1 /\ t
          /\ PrimStep(Deviations, LAMBDA r : IF Ev.e = "dat" THEN Ev.len ELSE Len(r))
          /\ bad' = "none"
          /\ OpEq(Ev, unsynced'[Len(unsynced')])
-         /\ UNCHANGED <<wal, walSync, snap, pc, cur, tg, lastC, req, acked, writes, mode, rtodo, crashes, ckpts, inflight>>
+         /\ UNCHANGED <<wal, walSync, snap, pc, cur, tg, lastC, req, acked, writes, mode, rtodo, crashes, ckpts, inflight, queue, rots>>
 
 TReset == /\ l <= Len(Trace) /\ Ev.e = "reset" /\ t' = t + 1 /\ l' = l + 1
           /\ wal' = <<FragST("NOTREPLAYED")>> /\ walSync' = 1
@@ -68,8 +71,9 @@ TReset == /\ l <= Len(Trace) /\ Ev.e = "reset" /\ t' = t + 1 /\ l' = l + 1
           /\ pc' = "idle" /\ cur' = <<>> /\ todo' = <<>> /\ vtmp' = <<>>
           /\ tg' = 1 /\ lastC' = 0 /\ req' = 0 /\ acked' = {} /\ writes' = <<>>
           /\ mode' = "run" /\ rtodo' = <<>> /\ crashes' = 0 /\ ckpts' = 0 /\ bad' = "none" /\ inflight' = 0
+          /\ queue' = <<>> /\ rots' = 0
 
-TraceNext == TIssue \/ TWal \/ TFsync \/ TAck \/ TCkpt \/ TSync \/ TPrim \/ TReset
+TraceNext == TIssue \/ TFlush \/ TTrunc \/ TStat \/ TWal \/ TFsync \/ TAck \/ TCkpt \/ TSync \/ TPrim \/ TReset
 
 TraceSpec == TraceInit /\ [][TraceNext]_tvars
 
